@@ -13,6 +13,7 @@ def check(fb, ctx):
         "implement exists / exists-and-forall. QUERYSCOPE: queries use the documented scopes. TRUST/VISIBLE/LOAD: shared with C03."
     )
     authz.checkkind_rules(fb, ctx)
+    authz.scope_arg_rules(fb, ctx)
     authz.decision_rules(fb, ctx)
     authz.used_rules(fb, ctx)
     authz.query_scope_rules(fb, ctx)
